@@ -132,7 +132,9 @@ def run_call(modname, fname, args_json):
         info = getattr(mod, "LAST_INFO", None)
         if info:
             out["info"] = info
-    except Exception as e:
+    except BaseException as e:
+        if type(e).__name__ in ("OutOfChoices", "HarnessError", "Suspended", "StepBudget"):
+            out["harness_error"] = repr(e)
         out["holds"] = False
         out["raised"] = repr(e)
         out["traceback"] = traceback.format_exc()[-3000:]
